@@ -844,10 +844,10 @@ type c20LinEv struct {
 func TestC20Lin(t *testing.T) {
 	rep := NewReport("C20")
 	defer rep.Finish(t)
-	nh := 40
+	nh := 160
 	clients, opsPer := 4, 6
 	if thorough() {
-		nh = 400
+		nh = 1200
 	}
 	rng := newRand("c20lin")
 	var out []c20LinEv
@@ -863,6 +863,13 @@ func TestC20Lin(t *testing.T) {
 	keys := []string{"/k/a", "/k/b", "/k/c"}
 	for h := 1; h <= nh; h++ {
 		st := &samlidp.MemoryStore{}
+		// three histories in four run on a big store: keys outside the listed prefix, which the operations of
+		// the history never touch (an operation that is atomic on a small map must be atomic on a large one)
+		if h%4 != 0 {
+			for f := 0; f < 1500; f++ {
+				st.Put(fmt.Sprintf("/filler/%04d", f), f)
+			}
+		}
 		type planned struct {
 			op string
 			k  string
